@@ -245,6 +245,10 @@ class Nodes:
             if (hasattr(source_node, "anchor") and source_node.anchor.value
                 and new_type is not type(None)
             ):
+                if new_type is str:
+                    # Text such as "None" or "(1, 2)" stays a plain str above
+                    # but only the ruamel.yaml types can carry the Anchor
+                    new_type = PlainScalarString
                 new_node = new_type(new_value, anchor=source_node.anchor.value)
             elif new_type is not type(None):
                 new_node = new_type(new_value)
